@@ -19,6 +19,13 @@ RULES = {
              "its result returned or `?`-ed; in append every entry pushed into the in-memory log is also pushed into the vector that the persist loop iterates, the loop body "
              "`?`-propagates persist_record, and the loop precedes callback.io_completed",
     "C21.3": "record kinds: recover_from_wal's `match record` lists every WalLogRecord variant with no wildcard arm, and every variant has at least one persist_record site",
+    "C21.5": "the engine under the store recovers only verified records (= C07.3 on the vendored engine copy octopii/src/wal/wal, MIR through harness/oshim): the recovery scan of "
+             "startup_chore advances a block's `used` only by sizes returned from a reader that compares the payload checksum. A record whose header reached the disk but whose "
+             "payload did not (a kill during an append) would otherwise be counted into the block; the batch read that WriteAheadLog::read_all issues then fails on it as a whole and "
+             "read_all reports no records at all",
+    "C21.6": "recovery can get past every record (= C03.3 on the vendored engine copy): read_all reads with a 10 MiB byte budget, so the engine's batch read must widen its first "
+             "planned range to the size of the entry at the cursor; otherwise a record larger than the budget is never returned, read_all sees two empty batches and stops in front "
+             "of it, and that record and every acknowledged record behind it are missing after a restart",
     "C21.4": "peer addresses: in persist_peer_addr_if_needed the map insert and the `needs persist` flag are set together, and the flag's then-branch `?`-propagates "
              "append_peer_addr_record; load_peer_addr_records and recover_from_wal both read through WriteAheadLog::read_all (so C21.1 covers both)",
 }
@@ -267,6 +274,18 @@ def check_peer_addrs(ctx, files):
         ctx.ok("C21.4", "WalLogStore::recover_from_wal", "the log store is recovered through WriteAheadLog::read_all", STORAGE, rec["line"])
 
 
+def check_engine_recovery_verifies(ctx):
+    try:
+        facts = common.mir(ctx, "oshim")
+    except Exception as e:
+        ctx.violate("C21.5", "harness/oshim", "vendored-engine-not-analysable", "octopii/src/wal/wal", None, "the vendored engine copy could not be type-checked: %s" % str(e)[:200])
+        return
+    from .c07 import check_recovery_verifies
+    check_recovery_verifies(ctx, facts, rid="C21.5")
+    from .c03 import check_first_entry_widening
+    check_first_entry_widening(ctx, facts, rid="C21.6")
+
+
 def run(ctx):
     for k, v in RULES.items():
         ctx.rule(k, v)
@@ -274,6 +293,7 @@ def run(ctx):
     try:
         check_read_all(ctx, files)
         check_engine_durable_consumption(ctx)
+        check_engine_recovery_verifies(ctx)
         check_persist_before_ack(ctx, files)
         check_record_kinds(ctx, files)
         check_peer_addrs(ctx, files)
